@@ -30,8 +30,8 @@ Ltac split_ztests :=
          | |- context [Z.ltb ?a ?b] => destruct (Z.ltb_spec a b)
          | |- context [Z.leb ?a ?b] => destruct (Z.leb_spec a b)
          end.
-Ltac zfields := repeat split; try reflexivity; try lia;
-                repeat (f_equal; try reflexivity; try lia).
+Ltac zeq := first [ reflexivity | lia | (progress f_equal; zeq) ].
+Ltac zfields := repeat split; cbn [rm_window rm_last rm_periods rm_sum rm_rate]; zeq.
 
 Section Tie.
 Context {T : Type} (N : NumOps T).
@@ -67,8 +67,10 @@ Lemma tie_timeout (s : rmon (T:=T)) d :
 Proof.
   unfold src_rm_timeout, rm_timeout, src_durationToSecond, duration_to_second, is_nil. cbv zeta.
   destruct s as [w l q sm rt]; cbn [rm_window rm_last rm_periods rm_sum rm_rate].
-  match goal with |- (let '(_, _) := (if ?c then _ else _) in _) = (if ?c' then _ else _) =>
-    change c with c'; destruct c' end; reflexivity.
+  change rate_timeout_s_m with 5; change rate_timeout_s_e with (-1); change time_ns_per_s_m with 1; change time_ns_per_s_e with 9.
+  destruct q as [|p q]; cbn [negb andb orb];
+    repeat match goal with |- context [nltb N ?a ?b] => destruct (nltb N a b) end;
+    repeat match goal with |- context [nleb N ?a ?b] => destruct (nleb N a b) end; reflexivity.
 Qed.
 
 Lemma tie_getRate (s : rmon (T:=T)) : src_rm_getRate (rm_rate s) = rm_rate s.
